@@ -494,7 +494,7 @@ func short(s string) string {
 	return r.Replace(s)
 }
 
-func doShape(L, idx, nKeys int, st *stats, crossCheck bool) {
+func doShape(L, idx, nKeys int, pols []string, st *stats, crossCheck bool) {
 	s := decodeShape(L, idx, nKeys)
 	e, noID := s.expectedPoint()
 	encE := refbls.EncodeG1(e)
@@ -522,7 +522,7 @@ func doShape(L, idx, nKeys int, st *stats, crossCheck bool) {
 		kmacs[p] = hs[s.cmb[p]]
 	}
 	sumInf := e.Inf
-	for _, pol := range policies {
+	for _, pol := range pols {
 		pks, specs := s.objects(pol)
 		path := "early-return(identity-key)"
 		if noID {
@@ -936,7 +936,10 @@ func main() {
 	if run.Thorough() {
 		Lmax = 4
 	}
-	type blk struct{ L, nKeys, n int }
+	type blk struct {
+		L, nKeys, n int
+		pols        []string
+	}
 	var blocks []blk
 	pow := func(b, e int) int {
 		r := 1
@@ -946,22 +949,26 @@ func main() {
 		return r
 	}
 	for L := 1; L <= Lmax; L++ {
-		blocks = append(blocks, blk{L, 4, pow(12, L)})
+		blocks = append(blocks, blk{L, 4, pow(12, L), policies})
 	}
 	if run.Thorough() {
-		blocks = append(blocks, blk{5, 3, pow(9, 5)})
+		blocks = append(blocks, blk{5, 3, pow(9, 5), []string{"shared", "mixed-repr"}})
+	} else {
+		// quick: L = 4 only for the identity-free 3-key alphabet and the policy that makes the most
+		// distinct key objects (the only way to reach three groups on the per-message path)
+		blocks = append(blocks, blk{4, 3, pow(9, 4), []string{"mixed-repr"}})
 	}
 	shapeCounts := map[string]int{}
 	for _, b := range blocks {
 		b := b
 		t1 := time.Now()
-		shapeCounts[fmt.Sprintf("L=%d,keys=%d", b.L, b.nKeys)] = b.n
+		shapeCounts[fmt.Sprintf("L=%d,keys=%d,policies=%d", b.L, b.nKeys, len(b.pols))] = b.n
 		const chunk = 16
 		nch := (b.n + chunk - 1) / chunk
 		ev.Par(nch, func(ci int) {
 			var st stats
 			for idx := ci * chunk; idx < (ci+1)*chunk && idx < b.n; idx++ {
-				doShape(b.L, idx, b.nKeys, &st, b.L <= 2)
+				doShape(b.L, idx, b.nKeys, b.pols, &st, b.L <= 2)
 			}
 			st.flush()
 		})
@@ -1008,7 +1015,7 @@ func main() {
 			errShapes[strings.TrimPrefix(k, "error-shapes/")] = v
 		}
 	}
-	run.Set("rule", "VerifyBLSSignatureManyMessages: for every L up to the bound, ALL (keys*3)^L assignments position->(key, (message,hasher)) "+
+	run.Set("rule", "VerifyBLSSignatureManyMessages: for every L up to the bound (quick: L<=3, plus L=4 over {a,b,-a} under the mixed-repr policy only; thorough: L<=4, plus L=5 over {a,b,-a} under the shared and mixed-repr policies), ALL (keys*3)^L assignments position->(key, (message,hasher)) "+
 		"[keys {a,b,-a,identity}; combos (m1,tagA),(m2,tagA),(m1,tagB)], each under 3 key-object policies (one shared object per key; a freshly decoded object per position; "+
 		"k-th occurrence of a key held in a different internal representation: Jacobian via RemoveBLSPublicKeys, decoded affine, second Jacobian, AggregateBLSPublicKeys), "+
 		"each with 12 candidate signatures (expected aggregate, +g1, minus first/last term, identity signature, +T of order 3, +cofactor point, sign-bit flip, x-lsb flip, lengths 0/47/49); "+
